@@ -32,6 +32,8 @@ type CloneCase struct {
 	// WithRaw (with FromWire): the deprecated exported Raw field holds the datagram the packet was decoded from (the old
 	// convention: Payload is a sub-slice of Raw); whatever Clone does with it, the two sides must not share it
 	WithRaw bool `json:"with_raw,omitempty"`
+	// NilValues: extensions with an empty value are set once more with a nil value (SetExtension(id, nil))
+	NilValues bool `json:"nil_values,omitempty"`
 	// Both: after cloning, the mutation is applied to BOTH sides (with different values):
 	// each side must then show its own change only
 	Both bool `json:"both"`
@@ -270,6 +272,13 @@ func checkC20(r *run, c *CloneCase) (CaseInfo, error) {
 		}
 		ci.class("extensions-emptied-by-del")
 	}
+	if c.NilValues && orig.Extension && !isLegacyProfile(orig.ExtensionProfile) {
+		for _, id := range orig.GetExtensionIDs() {
+			if len(orig.GetExtension(id)) == 0 && orig.SetExtension(id, nil) == nil {
+				ci.class("nil-extension-value")
+			}
+		}
+	}
 	orig.PayloadOffset = c.PayloadOffset
 	if c.XCleared && orig.Extension && len(orig.Extensions) > 0 {
 		orig.Extension = false
@@ -445,6 +454,7 @@ func genCloneCase(t *rapid.T) *CloneCase {
 	c.FromWire = genBool(t, "fromwire")
 	c.DupID = c.FromWire && rapid.IntRange(0, 3).Draw(t, "dupid") == 0
 	c.XCleared = rapid.IntRange(0, 7).Draw(t, "xcleared") == 0
+	c.NilValues = genBool(t, "nilvalues")
 	c.WithRaw = c.FromWire && rapid.IntRange(0, 3).Draw(t, "withraw") == 0
 	if genBool(t, "haspayloadoffset") {
 		c.PayloadOffset = rapid.SampledFrom([]int{12, 20, 1, -1, 65536}).Draw(t, "payloadoffset")
@@ -475,7 +485,7 @@ func genCloneCase(t *rapid.T) *CloneCase {
 	return c
 }
 
-const ruleC20 = "C01's well-formed packets (built through the API, or obtained from Unmarshal so that all slices alias one wire buffer (a quarter of those from an image that repeats an extension id); nil and empty payload/CSRC; the deprecated PayloadOffset header field set or not; one case in eight with the Extension flag cleared while the entries stay; decoded packets sometimes with the deprecated Raw field pointing at their datagram) x one mutation {flip payload byte, change CSRC entry, flip a byte of an extension value through the slice GetExtension returns, SetExtension new/replace, DelExtension, scalar field, padding size} applied to the original or to the clone, or a different new extension set on BOTH sides; optionally the extension list is first emptied again with DelExtension (length 0, spare capacity); oracle: clone observably equal (all fields, ids, values, Marshal bytes), untouched side unchanged after the mutation, as are a second clone of the original and a clone of the clone taken before it, and a clone of the untouched side taken after it; same for Header.Clone. Non-trivial = the mutation was applicable; distinct = FNV-64 of the JSON case"
+const ruleC20 = "C01's well-formed packets (built through the API, or obtained from Unmarshal so that all slices alias one wire buffer (a quarter of those from an image that repeats an extension id); nil and empty payload/CSRC/extension values; the deprecated PayloadOffset header field set or not; one case in eight with the Extension flag cleared while the entries stay; decoded packets sometimes with the deprecated Raw field pointing at their datagram) x one mutation {flip payload byte, change CSRC entry, flip a byte of an extension value through the slice GetExtension returns, SetExtension new/replace, DelExtension, scalar field, padding size} applied to the original or to the clone, or a different new extension set on BOTH sides; optionally the extension list is first emptied again with DelExtension (length 0, spare capacity); oracle: clone observably equal (all fields, ids, values, Marshal bytes), untouched side unchanged after the mutation, as are a second clone of the original and a clone of the clone taken before it, and a clone of the untouched side taken after it; same for Header.Clone. Non-trivial = the mutation was applicable; distinct = FNV-64 of the JSON case"
 
 func TestC20(t *testing.T) {
 	r := begin(t, "C20", "exploration", ruleC20)
